@@ -337,6 +337,20 @@ pub fn run(mut rep: Report) -> i32 {
     );
     part_latest(&mut rep, &timestamps, repeats);
     part_generate(&mut rep, thorough);
+    // Information only (ill-formed input, not part of the verdict): the id is the hash of the key
+    // bytes alone, so the same key inserted with two timestamps overwrites — the surviving
+    // timestamp, and with it possibly latest(), depends on the insertion order.
+    {
+        let other = GroupSecret::new([9; 32], 6);
+        let (k5, k7) = (GroupSecret::new([8; 32], 5), GroupSecret::new([8; 32], 7));
+        let a = [other.clone(), k5.clone(), k7.clone()].into_iter().fold(SecretBundle::init(), SecretBundle::insert);
+        let b = [other.clone(), k7, k5].into_iter().fold(SecretBundle::init(), SecretBundle::insert);
+        rep.set(
+            "info_same_key_inserted_with_two_timestamps",
+            json!({"insert_order_5_then_7_latest_ts": a.latest().map(|l| l.timestamp()), "insert_order_7_then_5_latest_ts": b.latest().map(|l| l.timestamp()),
+                   "order_dependent": a.latest().map(key) != b.latest().map(key), "in_verdict": false}),
+        );
+    }
     rep.assume("std HashMap iteration order (RandomState) is not owned: every case builds fresh maps and is repeated; the oracle (max by (timestamp,id) of the contents) does not depend on iteration order, so no false alarm is possible");
     rep.assume("secrets in one bundle have distinct key bytes (distinct ids); the same key with two different timestamps is an ill-formed input and outside the property");
     rep.assume("latest timestamp = u64::MAX excluded: no strictly later timestamp exists");
